@@ -15,7 +15,7 @@ ID = "C01"
 LEVEL = "exploration"
 BUDGET = {
     "quick": {"runs": 4000, "wall": 240, "chunk": 25},
-    "thorough": {"runs": 40000, "wall": 3000, "chunk": 100},
+    "thorough": {"runs": 200000, "wall": 3400, "chunk": 100},
 }
 RULE = (
     "each run draws, from one PRNG seeded by SHA-256(VERIF_SEED, property, tier, run index), a program "
